@@ -1,6 +1,6 @@
 /- C03 driver: `c03.take <fuel> <k> <n-inputs> <inputs…> <input> <n-defs> <defs…> <term>`
-   answers `I <items> c=<consumed> | R <items> c=<consumed>` — the iterator model and the
-   reference semantics taking `k` items.  Terms travel in prefix form (see `parseT`). -/
+   answers `I <items> c=<consumed> | R <items> c=<consumed> | P <0|1>` — the iterator model and the
+   reference semantics taking `k` items, and whether the program satisfies `PureIndexFilters`.  Terms travel in prefix form (see `parseT`). -/
 import Driver.Common
 import JaqVerif.C03.Ref
 import JaqVerif.C03.Iter
@@ -39,8 +39,50 @@ partial def parseT : List String → Option (T × List String)
   | "label" :: r => un .label r
   | "limit" :: n :: r => do let k ← n.toNat?; un (.limit k) r
   | "skip" :: n :: r => do let k ← n.toNat?; un (.skip k) r
+  | "arr" :: r => un .arr r
+  | "add" :: r => bin (.math .add) r
+  | "sub" :: r => bin (.math .sub) r
+  | "mul" :: r => bin (.math .mul) r
+  | "fvar" :: i :: r => do pure (.fvar (← i.toNat?), r)
+  | "reduce" :: r => do
+    let (xs, r) ← parseT r
+    let (i, r) ← parseT r
+    let (u, r) ← parseT r
+    pure (.fold .reduce xs i u .id, r)
+  | "foreach" :: r => do
+    let (xs, r) ← parseT r
+    let (i, r) ← parseT r
+    let (u, r) ← parseT r
+    pure (.fold .foreach xs i u .id, r)
+  | "foreachp" :: r => do
+    let (xs, r) ← parseT r
+    let (i, r) ← parseT r
+    let (u, r) ← parseT r
+    let (p, r) ← parseT r
+    pure (.fold .foreachP xs i u p, r)
+  | "calla" :: ty :: i :: skip :: n :: r => do
+    let ty ← (match ty with | "inline" => some CallTy.inline | "catch" => some CallTy.catch_ | _ => none)
+    let (args, r) ← parseArgs (← n.toNat?) r
+    pure (.callA ty (← i.toNat?) (← skip.toNat?) args, r)
+  | "tcalla" :: i :: skip :: n :: r => do
+    let (args, r) ← parseArgs (← n.toNat?) r
+    pure (.tcallA (← i.toNat?) (← skip.toNat?) args, r)
   | _ => none
 where
+  parseArgs (n : Nat) (r : List String) : Option (List (Bool × T) × List String) :=
+    match n with
+    | 0 => some ([], r)
+    | n + 1 =>
+      match r with
+      | "F" :: r => do
+        let (a, r) ← parseT r
+        let (rest, r) ← parseArgs n r
+        pure ((true, a) :: rest, r)
+      | "V" :: r => do
+        let (a, r) ← parseT r
+        let (rest, r) ← parseArgs n r
+        pure ((false, a) :: rest, r)
+      | _ => none
   bin (f : T → T → T) (r : List String) : Option (T × List String) := do
     let (a, r) ← parseT r
     let (b, r) ← parseT r
@@ -107,7 +149,9 @@ def take (toks : List String) : Option String := do
     | none => ([], w, true)
     | some (it, w0) => takeItD D fuel k it w0
   let rRes := takeRefD D fuel k (.run t ctx v) w
-  pure ("I " ++ showRun iRes ++ " | R " ++ showRun rRes)
+  -- is the program inside the class the main theorem speaks about (`PureIndexFilters`)?
+  let inClass := t.pureIdx && D.all T.pureIdx
+  pure ("I " ++ showRun iRes ++ " | R " ++ showRun rRes ++ " | P " ++ (if inClass then "1" else "0"))
 
 def handlers : List (String × Handler) := [
   ("c03.take", fun toks => (take toks).getD "bad-request")
